@@ -25,6 +25,9 @@ if ! git -C $root/repo apply "$patch"; then echo "patch does not apply"; exit 2;
 mkdir -p $root/verif
 rsync -a --delete --exclude target --exclude work --exclude .git --exclude replays /verif/ $root/verif/
 rm -rf $root/verif/replays
+for d in $root/verif/harness/p/*/; do   # packages another builder is still creating would break the workspace
+  if [ ! -f $d/Cargo.toml ] || { [ ! -f $d/src/main.rs ] && [ ! -f $d/src/lib.rs ]; }; then rm -rf $d; fi
+done
 find $root/verif/harness -name Cargo.toml | xargs sed -i "s|\"/repo/|\"$root/repo/|g"
 found=1
 for id in $ids; do
